@@ -411,6 +411,19 @@ def _mirsym():
         bounds="every row-kind sequence over {Int, Float, NULL} of length 0-3 (quick) / 0-4 (thorough) plus longer fixed ones and all-string columns of 1-3 rows; values symbolic (strings: one symbolic byte)",
         spec=seb.EventBufferSpec(), assumptions=["string columns with NULLs / mixed string-number columns panic by documented assert (\"Sparse columns not currently supported for string\"): outside the shapes explored"])
 
+    from .specs import operators as sop_
+    add("C03.b/encode_float", "C03", "mirsym", Q,
+        "Codec::encode_float translates a float WHERE constant into the encoding domain of an offset-/narrow-encoded integer column such that all six comparisons `e as f64 OP encode_float(c)` agree with what the same query computes on the decoded values (`(e + y) as f64 OP c`)",
+        ["mem_store::codec::Codec::encode_float"],
+        bounds="codecs [Add(T, y)] and [ToI64(T)] for T in {u8,u32} (quick) + u16 (thorough); all encoded values e: T; mode grid: constants k/2^16 with |k| < 2^47 and offsets |y| < 2^31 (every f64 operation exact); mode full: every non-NaN f64 constant, every offset with e + y representable",
+        spec=sop_.EncodeFloatSpec(), assumptions=["the comparison kernels compare `e as f64` with the translated constant (C03.a of64 instantiations)"])
+
+    add("C15.a/subpartition_loaded", "C15", "mirsym", Q,
+        "PartitionMetadata::subpartition_has_been_loaded / mark_subpartition_as_loaded route a column name exactly like subpartition_key: the flag read or set is that of the first sub-partition whose last column is >= the name; a name beyond the last stored column reads as already loaded (so the reader hands out an empty column instead of scheduling a disk read that can never be satisfied) and marks nothing",
+        ["disk_store::meta_store::PartitionMetadata::{subpartition_has_been_loaded,mark_subpartition_as_loaded}"],
+        bounds="same sub-partition sets and symbolic names as C15.a/subpartition_key; loaded flags initially alternate false/true; BTreeMap modelled as a sorted association list, AtomicBool as a cell",
+        spec=sr.SubpartitionLoadedSpec(), stubs=["BTreeMap<String,usize> -> sorted association list with cursors", "AtomicBool -> cell"])
+
 
 _mirsym()
 
